@@ -293,13 +293,15 @@ def _parse_block(lines):
                 opts["keep_attrs"] = True
             elif kw == "nocanary":
                 opts["nocanary"] = True
-            elif kw in ("lift", "lift-block", "lift-closure"):
+            elif kw == "omit-shell":
+                opts["omit_shell"] = True
+            elif kw in ("lift", "lift-block", "lift-closure", "lift-expr"):
                 m = re.match(r"^(\w+)\s+/(.*)/\s*$", rest)
                 if not m:
                     raise UnitError("bad lift: " + ln)
                 opts.setdefault("lifts", {})[m.group(1)] = {"pat": m.group(2), "call": None, "head": None,
                                                            "mutrefs": [], "contract": [], "serves": None,
-                                                           "block": kw == "lift-block", "closure_arg": kw == "lift-closure", "rw": []}
+                                                           "block": kw == "lift-block", "closure_arg": kw == "lift-closure", "expr": kw == "lift-expr", "rw": []}
             elif kw in ("lift-rw", "lift-rw?"):
                 m = re.match(r"^(\w+)\s+(\S+)\s+/(.*)/\s+=>\s?(.*)$", rest)
                 if not m:
@@ -580,6 +582,16 @@ def build_fn(repo, file, path, opts, as_item=False):
         elif L.get("closure_arg"):
             po = mm.start()                           # a closure literal passed as an argument
             end = bc + 1
+        elif L.get("expr"):
+            # an `if .. { } else if .. { } else { }` (or `match x { }`) expression starting at the pattern
+            po = mm.start()
+            end = bc + 1
+            while True:
+                me = re.match(r"\s*else\b[^{]*\{", bm0[end:])
+                if not me:
+                    break
+                nb = end + me.end() - 1
+                end = match_brace(bm0, nb) + 1
         else:
             po = mm.start() + seg.index("(")          # the `(` of `(|| ...`
             tail = re.match(r"\s*\)\s*\(\s*\)", bm0[bc + 1:])
@@ -587,6 +599,8 @@ def build_fn(repo, file, path, opts, as_item=False):
                 raise Unsupported("R14: closure at /%s/ is not immediately invoked" % L["pat"])
             end = bc + 1 + tail.end()
         cbody = body[bo:bc + 1]
+        if L.get("expr"):
+            cbody = "{ " + body[po:end] + " }"
         for (rule_, pat_, repl_, opt_) in L.get("rw", []):
             cbody, n_ = _apply_rw(cbody, pat_, repl_)
             if n_ == 0 and opt_:
@@ -754,10 +768,14 @@ def assemble(unit_path, repo, units_root):
             pieces, fo = build_fn(repo, file, path, opts)
             for (rule, what, n) in fo.rewrites:
                 u.rewrites.append(("%s :: %s" % (file, path), rule, what, n))
-            for p in pieces:
-                out_pieces.append((p, fo if kind == "fn" else None, file))
+            if not opts.get("omit_shell"):
+                for p in pieces:
+                    out_pieces.append((p, fo if kind == "fn" else None, file))
+            else:
+                u.rewrites.append(("%s :: %s" % (file, path), "R14", "enclosing task body not emitted (only the lifted expression is verified)", 1))
             if kind == "fn":
-                u.fns.append(fo)
+                if not opts.get("omit_shell"):
+                    u.fns.append(fo)
                 for (p2, f2) in getattr(fo, "extra", []):
                     for p in p2:
                         out_pieces.append((p, f2, file))
